@@ -430,6 +430,14 @@ class Parser(object):
     def parse_call(self, name):
         self.expect_op('(')
         distinct = False; star = False; args = []
+        if name.lower() == 'trim' and self.t.kind in ('id', 'kw') and str(self.t.val).lower() in ('both', 'leading', 'trailing'):
+            # SQL-92 TRIM([BOTH | LEADING | TRAILING] remstr FROM str)
+            side = str(self.adv().val).lower()
+            rem = self.parse_expr()
+            self.expect_kw('from')
+            e = self.parse_expr()
+            self.expect_op(')')
+            return ('func', {'both': 'trim_str', 'leading': 'ltrim_str', 'trailing': 'rtrim_str'}[side], [e, rem], False, False)
         if self.accept_kw('distinct'): distinct = True
         if self.is_op('*'):
             self.adv(); star = True
